@@ -594,6 +594,9 @@ def main(tier):
             for order in (None, 1, 2):
                 grounded.append(dict(domain_text=text_, action="act", args=args, objects=dict(G.OBJECTS), mode="apply", order=order,
                                      label="[through a grounded operator] " + str(eff), cap=8, max_paths=500))
+            # ... and applied twice in a row by the same operator object (old + v is about the state the call is given)
+            grounded.append(dict(domain_text=text_, action="act", args=args, objects=dict(G.OBJECTS), mode="reapply", order=None,
+                                 label="[through a grounded operator, twice] " + str(eff), cap=8, max_paths=500))
     g_out = Counter()
     for t, r in zip(grounded, runner.pmap(callsym.run_task, grounded)):
         total += 1
